@@ -6,8 +6,11 @@ package inventory
 
 //@ func Stat
 //@   param onHeader is HeaderCallback
+//@   fresh result0
 //@   property C13
-//@   modifies *, knownDir[name]
+//@   modifies *, knownDir[name], knownEntry[name]
 //@   ghostset knownDir[name] := result1 == nil && result0.Typeflag == 53
+//@   ghostset knownEntry[name] := result1 == nil
+//@   ensures [records-lookup] knownEntry[name] <==> result1 == nil
 //@   ensures [records-directory-lookup] knownDir[name] <==> (result1 == nil && result0.Typeflag == 53)
 //@   ensures [found-header] result1 == nil ==> result0 != nil
